@@ -552,7 +552,9 @@ func vfCAlphabet(mode string, max int64, withProxy bool) []*vfCOp {
 	z := vlib.Zeros(8192)
 	kz := vfCKey{cache.CAS, vlib.Sha(z)}
 	kbig, dbig := mk("e2-big", int(max)+1, false)
-	ach := strings.Repeat("5a", 32)
+	// all three key spaces collide on ONE hash: the AC/RAW key is the CAS
+	// digest of blob a
+	ach := ka.hash
 	kac := vfCKey{cache.AC, ach}
 	kraw := vfCKey{cache.RAW, ach}
 	v1 := vlib.Bytes("e2-v1", 100, false)
@@ -583,7 +585,7 @@ func vfCAlphabet(mode string, max int64, withProxy bool) []*vfCOp {
 		{name: "get(ac,k)", what: "get", key: kac, size: -1},
 		{name: "get(raw,k)", what: "get", key: kraw, size: -1},
 		{name: "contains(ac,k)", what: "contains", key: kac, size: -1},
-		{name: "getzstd(ac-hash)", what: "getzstd", key: vfCKey{cache.CAS, ach}, size: -1},
+		{name: "getzstd(cas,a,-1)", what: "getzstd", key: ka, size: -1},
 	}
 	if withProxy {
 		ops = append(ops,
